@@ -1,12 +1,19 @@
 (* C10 — symlinks record their target faithfully and are never mistaken for the target.
-   Proved on the mirror: link exclusion of the queries, readlink/readlink_abs fail on a non-link,
-   follow(true) swaps path and alt exactly once, and (C16) the stored relative path navigates from the
-   link's directory to the absolute target.  The remaining clauses are evaluated on the real code
-   (streams symlink-laws, nofollow-frame). *)
+   Proved on the mirror (Memfs/LinkFacts.v): symlink(link, target) stores under the link path a link
+   entry whose absolute target is the resolved target (relative spellings taken from the link's
+   directory), whose relative form is relative(target, dir(link)) and whose kind is the kind the
+   target has at creation, so that right afterwards readlink_abs / readlink / is_symlink / is_file /
+   is_dir / is_symlink_dir / is_symlink_file answer as the property says; link exclusion of the
+   queries in every state; readlink/readlink_abs fail on a non-link; follow(true) swaps path and alt
+   exactly once; (C16) the stored relative path navigates from the link's directory to the absolute
+   target; and in every well-formed state remove, chown without follow and chmod without follow on a
+   link act on the link itself and leave every other entry - the target included - untouched.  The
+   clauses are also evaluated on the real code (streams symlink-laws, nofollow-frame); 'for as long
+   as the target is unchanged' is the frame of the other calls (C01/C09). *)
 From stdpp Require Import gmap.
 From Coq Require Import NArith.
 From RV Require Import Base.Str Base.PathLex Base.PathLexFacts Path.Clean Path.Relative Path.RelativeFacts Path.Helpers Path.Expand
-  Memfs.State Memfs.Ops Memfs.Walk Memfs.Step Memfs.ContentFacts.
+  Memfs.State Memfs.Ops Memfs.Walk Memfs.WalkOps Memfs.Step Memfs.ContentFacts Memfs.Wf Memfs.LinkFacts.
 
 Theorem C10_link_exclusion : forall env m s p e, resolve env m s = inl p -> m_ents m !! p = Some e -> e_link e = true ->
   step env m (OIsSymlink s) = Done (m, inl (VBool true)) /\
@@ -30,3 +37,45 @@ Theorem C10_readlink_navigates : forall ts ds, Forall is_name ts -> Forall is_na
   clean (join (abs_path ds) (relative (abs_path ts) (abs_path ds))) = Done (abs_path ts).
 Proof. exact relative_navigates. Qed.
 Print Assumptions C10_readlink_navigates.
+
+(* what symlink() stores *)
+Theorem C10_symlink_records : forall env m l t m' lp, symlink_op env m l t = (m', inl lp) ->
+  resolve env m l = inl lp /\ exists tp, resolve env m (link_target lp t) = inl tp /\
+    m_ents m' !! lp = Some (new_link lp tp (match m_ents m !! tp with Some x => e_dir x | None => false end)) /\
+    m_cwd m' = m_cwd m.
+Proof. exact symlink_records. Qed.
+Print Assumptions C10_symlink_records.
+
+(* ... and what the queries answer right afterwards *)
+Theorem C10_symlink_then_queries : forall env m l t m' lp, symlink_op env m l t = (m', inl lp) ->
+  exists tp, resolve env m (link_target lp t) = inl tp /\
+    step env m' (OReadlinkAbs l) = Done (m', inl (VPath (render_rpath tp))) /\
+    step env m' (OReadlink l) = Done (m', inl (VPath (relative (render_rpath tp) (render_rpath (tail lp))))) /\
+    step env m' (OIsSymlink l) = Done (m', inl (VBool true)) /\
+    step env m' (OIsFile l) = Done (m', inl (VBool false)) /\
+    step env m' (OIsDir l) = Done (m', inl (VBool false)) /\
+    step env m' (OIsSymlinkDir l) = Done (m', inl (VBool (match m_ents m !! tp with Some x => e_dir x | None => false end))) /\
+    step env m' (OIsSymlinkFile l) = Done (m', inl (VBool (negb (match m_ents m !! tp with Some x => e_dir x | None => false end)))).
+Proof. exact symlink_then_queries. Qed.
+Print Assumptions C10_symlink_then_queries.
+
+(* remove acts on the link itself *)
+Theorem C10_remove_link_only : forall env m s p r, WF m -> resolve env m s = inl p -> m_ents m !! p = Some r -> e_link r = true ->
+  exists m' b d pe, p = b :: d /\ m_ents m !! d = Some pe /\ remove_op env m s = (m', inl tt) /\
+    m_ents m' !! p = None /\ m_ents m' !! d = Some (entry_remove pe b) /\
+    (forall q, q <> p -> q <> d -> m_ents m' !! q = m_ents m !! q) /\ (forall q, q <> p -> m_data m' !! q = m_data m !! q) /\ m_cwd m' = m_cwd m.
+Proof. exact remove_link_only. Qed.
+Print Assumptions C10_remove_link_only.
+
+(* chown without follow acts on the link itself *)
+Theorem C10_chown_link_only : forall env m s o p r, WF m -> co_follow o = false -> resolve env m s = inl p -> m_ents m !! p = Some r -> e_link r = true ->
+  exists m', chown_op env m s o = Done (m', inl tt) /\ m_ents m' !! p = Some (set_owner r (co_uid o) (co_gid o)) /\
+        (forall q, q <> p -> m_ents m' !! q = m_ents m !! q) /\ m_data m' = m_data m.
+Proof. exact chown_link_only. Qed.
+Print Assumptions C10_chown_link_only.
+
+(* chmod without follow on a link changes nothing, the target included *)
+Theorem C10_chmod_link_nofollow : forall env m s o p r, WF m -> ch_follow o = false -> resolve env m s = inl p -> m_ents m !! p = Some r -> e_link r = true ->
+  exists res, chmod_op env m s o = Done (m, res).
+Proof. exact chmod_link_nofollow. Qed.
+Print Assumptions C10_chmod_link_nofollow.
